@@ -333,13 +333,16 @@ def run(tier, seed):
     T_neg_c = trig_set('ctrig_neg_atom', ccases)
     T_bare_c = trig_set('ctrig_bare', ccases)
     new = []
+    bare_known = set()
     for j in obs_fail:
         if 'F-C05-nested-initially' in findings and j in T_init and j not in mobs_fail:
             rep.known_finding('F-C05-nested-initially', findings['F-C05-nested-initially']['summary'])
         elif ('F-C05-bare-finally' in findings and int(ometa[j]['i']) in T_bare_c and 'finally ' in ometa[j]['text'].split('\n')[-1]
               and re.search(r'(?<![A-Za-z0-9_&])__[a-z]', str(ometa[j]['impl']))):
             # trigger: the condition is a bare 'finally' entity (no temporal formula) and the rule body holds the literal '__p(..)'
+            # (the model reads '__p' as 'finally p'; telingo gives it no meaning: that disagreement IS the finding)
             rep.known_finding('F-C05-bare-finally', findings['F-C05-bare-finally']['summary'])
+            bare_known.add(j)
         else:
             new.append(j)
     for j in new[:3]:
@@ -364,7 +367,7 @@ def run(tier, seed):
         tie_broken.append('translator failed closed: ' + tout[-600:])
     if corr_fail:
         tie_broken.append('correspondence (model body text vs implementation) differs on %d sentences, first: %r' % (len(corr_fail), cmeta[corr_fail[0]]))
-    only_model = [j for j in mobs_fail if ometa[j]['i'] not in corr_fail]
+    only_model = [j for j in mobs_fail if ometa[j]['i'] not in corr_fail and j not in bare_known]
     if only_model:
         tie_broken.append('model semantics (Tel/Sem.v) disagrees with telingo on %d sentences, first: %r' % (len(only_model), ometa[only_model[0]]))
     if proof['bad']:
